@@ -308,7 +308,7 @@ distinct = distinct resolution patterns / (history length, key set, sequence, fl
             check_mapping(&mut ctx.obs, &msg, &cuts, mix(190, mix(n as u64, pat as u64)));
         }
     }
-    let n_rand = ctx.tier.pick(1_000, 400_000);
+    let n_rand = ctx.tier.pick(10_000, 400_000);
     for i in 0..n_rand {
         let n = rng.urange(0, 32);
         let cuts: Vec<(bool, u8, u8)> = (0..n).map(|_| (rng.chance(1, 2), rng.below(7) as u8, rng.below(4) as u8)).collect();
@@ -321,7 +321,7 @@ distinct = distinct resolution patterns / (history length, key set, sequence, fl
     }
 
     // ---- estimates over histories ----------------------------------------------------------------------------
-    let n_hist = ctx.tier.pick(120, 20_000);
+    let n_hist = ctx.tier.pick(1_000, 20_000);
     for hi in 0..n_hist {
         if ctx.out_of_time() {
             break;
